@@ -89,8 +89,8 @@ CHECKS = {
         "require_ops": ["functor.map_arrow", "laxf.dyn_map_arrow", "functor.laws"],
     },
     "C13": {
-        "quick": {"gen": [G("MC_C12", "MC_C13_quick.cfg"), G("MC_C12", "MC_C13_two.cfg")], "drive": [D("strict", 1500, only=["laxf.map_arrow_witness"])]},
-        "thorough": {"gen": [G("MC_C12", "MC_C13_thorough.cfg"), G("MC_C12", "MC_C13_quick.cfg"), G("MC_C12", "MC_C13_two.cfg")], "drive": [D("strict", 20000, only=["laxf.map_arrow_witness"])]},
+        "quick": {"gen": [G("MC_C12", "MC_C13_quick.cfg"), G("MC_C12", "MC_C13_two.cfg"), G("MC_C12", "MC_C13_wide.cfg")], "drive": [D("strict", 1500, only=["laxf.map_arrow_witness"])]},
+        "thorough": {"gen": [G("MC_C12", "MC_C13_thorough.cfg"), G("MC_C12", "MC_C13_quick.cfg"), G("MC_C12", "MC_C13_two.cfg"), G("MC_C12", "MC_C13_wide.cfg"), G("MC_C12", "MC_C13_wide_thorough.cfg")], "drive": [D("strict", 20000, only=["laxf.map_arrow_witness"])]},
         "require_ops": ["laxf.try_define_map_arrow", "laxf.map_arrow_witness"],
     },
     "C14": {
